@@ -18,13 +18,18 @@ REQUIRED = ["Sun.geometric_geocentric_position", "Sun.apparent_geocentric_positi
             "Angle.__neg__", "Angle.rad", "Epoch.check_input_date"]
 THEOREMS = ["C08_mean_obliquity_polynomial", "C08_mean_obliquity_vs_IAU", "C08_true_obliquity_is_sum",
             "C08_sun_geometric_is_earth_reflected", "C08_sun_apparent_is_earth_reflected", "C08_reflected_longitude",
-            "C08_rectangular_of_date_norm", "C08_latitude_term_small", "C08_rectangular_j2000_norm"]
+            "C08_rectangular_of_date_norm", "C08_latitude_term_small", "C08_rectangular_j2000_norm",
+            "C08_rectangular_j2000_closed_form", "C08_rectangular_b1950_closed_form", "C08_b1950_refuted",
+            "C08_rectangular_equinox_closed_form", "C08_equinox_angles", "C08_rectangular_equinox_norm",
+            "C08_equinox_T_refuted", "C08_true_longitude_coarse_closed_form", "C08_coarse_constants",
+            "C08_apparent_longitude_coarse_closed_form",
+            "C08_moon_node_closed_form", "C08_moon_node_constants", "C08_node_agreement"]
 PROOF_TIMEOUT = {"quick": 2200, "thorough": 3000}
 EXHAUSTIVE = False
 MANIFEST = {
     "category": "proof",
-    "text": "T4 in the ideal (real-number) instance of the regenerated model: mean_obliquity is Laskar's explicit degree-10 polynomial and stays within 3 arcsec of the IAU cubic for |T| <= 20 (interval); true obliquity = mean + nutation in obliquity; Sun geometric/apparent position = the Earth callee's result reflected (lon+180 reduced to [0,360), -lat, same r) whatever the VSOP87 callee returns; of-date rectangular coordinates have norm r (1 + sin^2 lat)^(1/2), J2000 ones norm r to 2e-12 (constant matrix orthogonal to 2e-12). Frame agreement with the library's own precession (2 arcsec / 1e-5 AU, 1000-3000), nutation vs the 18.6-year main-term model and coarse-vs-VSOP87 are searched densely on the implementation (3 genuine frame defects recorded as known findings, with a defect-free recomputation checked against the property and the code checked against defect-free / known-defect recomputations). Bit-exact correspondence every run.",
-    "technique": "symbolic evaluation (pyrun) of the generated model over the reals with opaque callees + interval/lra/ring; generated model + bit-exact differential correspondence; dense search for the numeric clauses",
+    "text": "T4 in the ideal (real-number) instance of the regenerated model: mean_obliquity is Laskar's explicit degree-10 polynomial and stays within 3 arcsec of the IAU cubic for |T| <= 20 (interval); true obliquity = mean + nutation in obliquity; Sun geometric/apparent position = the Earth callee's result reflected (lon+180 reduced to [0,360), -lat, same r) whatever the VSOP87 callee returns; of-date rectangular coordinates have norm r (1 + sin^2 lat)^(1/2), J2000 ones norm r to 2e-12 (constant matrix orthogonal to 2e-12). Closed forms of rectangular_coordinates_j2000/_b1950/_equinox and of true/apparent_longitude_coarse on the generated code (every literal constant pinned); the equinox rotation is exactly orthogonal; the known findings are theorems: ~ C08_b1950_norm_full (x overwritten before use) and ~ C08_equinox_T_full (T = epoch - equinox instead of 0). Frame agreement with the library's own precession (2 arcsec / 1e-5 AU, 1000-3000), nutation vs the 18.6-year main-term model and coarse-vs-VSOP87 are searched densely on the implementation (3 genuine frame defects recorded as known findings, with a defect-free recomputation checked against the property and the code checked against defect-free / known-defect recomputations). Bit-exact correspondence every run.",
+    "technique": "symbolic evaluation (pyrun / call-by-value pyrunv) of the generated model over the reals with opaque callees + interval/lra/ring; generated model + bit-exact differential correspondence; dense search for the numeric clauses",
     "design_ref": "8/C08",
 }
 EXPLANATION = ("The Coq model of Sun/Earth/Coordinates/Moon regenerated from /repo is read over the real numbers "
@@ -39,20 +44,21 @@ CLAUSES = {
     "Sun apparent position = Earth apparent position reflected": "proved [ideal, for every result of the Earth callee, nutation on/off]",
     "rectangular coordinates of date have norm r": "proved [ideal: norm^2 = r^2 (1 + sin^2 lat) exactly, i.e. r to 2e-10 for |lat| <= 0.001 deg; the code omits Meeus' factor cos(lat)]",
     "J2000 rectangular coordinates have norm r": "proved [ideal: spherical vector of norm r times a constant matrix with |M^T M - I| <= 2e-12, for every result of the J2000 callee]",
-    "arbitrary-equinox rectangular coordinates have norm r": "unproved (searched): holds to 4e-13 AU over 1000-3000 (rotation matrix built from sin/cos of three angles)",
-    "B1950 rectangular coordinates have norm r": "refuted: witness Sun.rectangular_coordinates_b1950(Epoch(2089055.144)) has norm 1.00744 with r = 1.01526 (x overwritten before y, z use it) - known finding norm-b1950",
-    "J2000/B1950/arbitrary equinox positions = of-date position carried by the library's precession, 2 arcsec / 1e-5 AU, 1000-3000": "refuted: witnesses under known findings frame-j2000, frame-earth-j2000 (VSOP87_L_J2000 frequency typo 12556.15 for 12566.15, up to 144 arcsec), frame-b1950 (variable overwrite, up to 6900 arcsec), frame-equinox (T = epoch-equinox instead of 0, up to 208 arcsec); the same clause holds to 0.7 arcsec for the defect-free recomputation from the library's tables (searched)",
+    "arbitrary-equinox rectangular coordinates have norm r": "proved [ideal: closed form of the generated function = rotation by zeta, z, theta of the J2000 vector, and that rotation is exactly orthogonal (C08_rectangular_equinox_closed_form, C08_rectangular_equinox_norm)]",
+    "B1950 rectangular coordinates have norm r": "refuted: known finding norm-b1950 - closed form of the generated body (y uses the already rotated x, z the rotated x and y: C08_rectangular_b1950_closed_form) and ~ C08_b1950_norm_full proved with the witness lon = 90, lat = 0, r = 1 (norm off by > 1e-7); implementation witness Sun.rectangular_coordinates_b1950(Epoch(2089055.144)): norm 1.00744, r = 1.01526",
+    "J2000/B1950/arbitrary equinox positions = of-date position carried by the library's precession, 2 arcsec / 1e-5 AU, 1000-3000": "refuted: witnesses under known findings frame-j2000, frame-earth-j2000 (VSOP87_L_J2000 frequency typo 12556.15 for 12566.15, up to 144 arcsec), frame-b1950 (variable overwrite, up to 6900 arcsec), frame-equinox (T = epoch-equinox instead of 0, up to 208 arcsec); the same clause holds to 0.7 arcsec for the defect-free recomputation from the library's tables (searched); in Coq: closed forms of all three generated functions pin every constant (C08_rectangular_j2000/b1950/equinox_closed_form, C08_equinox_angles); refuted: known finding frame-equinox - the generated zeta, z, theta are evaluated with T = (epoch - equinox)/36525 instead of 0 (~ C08_equinox_T_full, 54 arcsec at t = 3, T = -13); refuted: known finding frame-b1950 (~ C08_b1950_norm_full)",
     "mean obliquity within 3 arcsec of the IAU cubic for |T| <= 20": "proved [ideal, interval on the generated polynomial]",
-    "nutation in longitude within 3.5 arcsec of -17.20 sin(Omega), Omega = Moon.longitude_mean_ascending_node": "unproved (searched): worst 2.43 arcsec over -2000..4000; the 63-row table loop with a reduction after every Angle operation was not brought into closed form in the time available",
+    "nutation in longitude within 3.5 arcsec of -17.20 sin(Omega), Omega = Moon.longitude_mean_ascending_node": "unproved (searched): worst 2.43 arcsec over -2000..4000; the 63-row table loop with a reduction after every Angle operation was not brought into closed form in the time available; proved [ideal]: Moon.longitude_mean_ascending_node = pos360(red360(node polynomial)) with every constant pinned, and the node polynomial inside the nutation functions agrees with it to 0.0024 degree for |T| <= 20 (C08_moon_node_closed_form, C08_node_agreement)",
     "nutation in obliquity within 1.5 arcsec of 9.20 cos(Omega)": "unproved (searched): worst 0.83 arcsec over -2000..4000",
     "true obliquity = mean obliquity + nutation in obliquity": "proved [ideal, structural, for every result of the two callees]",
-    "coarse solar formulas within 0.02 degree of VSOP87 in 1800-2200": "unproved (searched): worst 0.0095 degree; global numeric statement about a 1000-term series",
+    "coarse solar formulas within 0.02 degree of VSOP87 in 1800-2200": "unproved (searched): worst 0.0095 degree; global numeric statement about a 1000-term series. Proved [ideal]: closed forms of true_longitude_coarse (polynomials L0, M, e, equation of the centre, radius vector, every Angle reduction explicit) and apparent_longitude_coarse, pinning every constant (C08_true_longitude_coarse_closed_form, C08_coarse_constants, C08_apparent_longitude_coarse_closed_form)",
     "date arguments in every accepted form": "unproved (searched): all forms go through Epoch.check_input_date (C02); every documented form of a calendar day gives the same Angle",
 }
 
 
 def proof_files(tier):
-    return ["C08_base.v", "C08_obliquity.v", "C08_sun.v", "C08_j2000.v", "C08.v"]
+    return ["C08_base.v", "C08_obliquity.v", "C08_sun.v", "C08_j2000.v", "C08_angle2.v", "C08_frames.v",
+            "C08_equinox.v", "C08_coarse.v", "C08_node.v", "C08.v"]
 
 
 # ----------------------------------------------------------------------------------------------
@@ -295,8 +301,10 @@ class Oracle:
         zzz = math.cos(tr)
         return (xx * x0 + yx * y0 + zx * z0, xy * x0 + yy * y0 + zy * z0, xz * x0 + yz * y0 + zzz * z0)
 
-    # known-finding envelopes (measured maxima on the unchanged tree over 1000..3000 + ~10 %)
-    ENVELOPE = {"frame-j2000": (160.0, 8e-4), "frame-earth-j2000": (160.0, 8e-4), "frame-equinox": (230.0, 1.2e-3),
+    # known-finding envelopes: measured maxima on the unchanged tree over 1000..3000 (dense grid incl. the
+    # corners epoch 1000/3000 x equinox J2000 -+ 300 y): j2000 144.0, earth-j2000 143.9, equinox 233.7
+    # (typo 144 + T-term up to ~114 when aligned = 258 at worst), b1950 6925 arcsec / norm 1.32e-2 AU; + >= 10 %
+    ENVELOPE = {"frame-j2000": (160.0, 8e-4), "frame-earth-j2000": (160.0, 8e-4), "frame-equinox": (290.0, 1.5e-3),
                 "frame-b1950": (8000.0, 4e-2), "norm-b1950": (None, 2e-2)}
 
     def _frame_clause(self, key, name, jde, got, carried, r, imp, call, variant, eqx):
